@@ -44,6 +44,12 @@ func (e *Engine) narrow(st *State, p Ptr) Ptr {
 		return p
 	}
 	s := p.Sym[0]
+	// only byte/integer arrays profit (ite chains); tables of pointers are read by value groups
+	if o := e.obj(st, p.Obj); o == nil || p.Off >= len(o.Cells) {
+		return p
+	} else if _, isTerm := o.Cells[p.Off].(*smt.Term); !isTerm {
+		return p
+	}
 	key := s.Idx.ID
 	if st.narrowCache == nil {
 		st.narrowCache = map[int]int{}
